@@ -665,6 +665,8 @@ class Walker:
     def assign(self, t, v, st: State, node, aug=None, addend=None) -> List[State]:
         if isinstance(t, ast.Name):
             st.env[t.id] = v
+            if st.loops:
+                self.emit(st, "bind", node, name=t.id, value=v)
             return [st]
         if isinstance(t, (ast.Tuple, ast.List)):
             cur = [st]
@@ -788,6 +790,8 @@ class Walker:
             nonnull = x[0] in ("new", "newb", "fileobj", "lst", "tup", "struct", "func", "cls", "bm", "pack", "comp", "nary", "bin")
             if x == NONE:
                 return C(v[1] == "is")
+            if x[0] == "call" and x[1][0] == "g" and x[1][1] in ("int", "float", "str", "bytes", "len", "bool", "list", "tuple", "sorted", "bytearray"):
+                nonnull = True
             if nonnull or (is_const(x) and x[1] is not None):
                 return C(v[1] == "isnot")
         return v
